@@ -168,4 +168,54 @@ theorem stash_encode_decode (fs : List Form) (h : ∀ f ∈ fs, stashOK f = true
 
 example : stashOK ["(defun f (x)".toList, "  (+ x 1))".toList] = true := by decide
 
+/-- `stash_crash_consistent`: when memory and stash file agree (`SInv`: the file decodes to the forms
+in memory, all inside the guard), for every `Stash.Add`/`Stash.Clear` and every step index `k`, a
+restart after a process death at step `k` loads the old stash, the new stash or (Clear only) a prefix
+of the new one, and memory and file agree again. -/
+theorem stash_crash_consistent (forms : List Form) (fs : FS) (hinv : SInv forms fs) (o : SOp) (ho : SOpOK o)
+    (k : Nat) :
+    ∃ L, loadStash (crashAt k (sperform forms o).2 fs) = some L ∧
+      (L = forms ∨ L = (sperform forms o).1 ∨ (isSClear o ∧ L <+: (sperform forms o).1)) ∧
+      SInv L (crashAt k (sperform forms o).2 fs) := by
+  obtain ⟨L, hL, hrel, _⟩ := stash_op_crash forms fs hinv o ho k
+  exact ⟨L, hL.load, hrel, hL⟩
+
+example : SInv [["(a".toList, " b)".toList]] ⟨none, none, some "(a\n b)\n\n".toList⟩ :=
+  ⟨by decide, decodes_stashEnc ["(a".toList, " b)".toList] (by decide)⟩
+
+/-- `stash_restart_equals_memory`: after any sequence of `Stash.Add`/`Stash.Clear` (forms inside the
+guard or empty) on a stash file that agreed with memory at the start, `LoadExpanded` returns exactly
+the forms in memory. -/
+theorem stash_restart_equals_memory (forms : List Form) (fs : FS) (hinv : SInv forms fs) (ops : List SOp)
+    (hok : ∀ o ∈ ops, SOpOK o) :
+    loadStash (srun (forms, fs) ops).2 = some (srun (forms, fs) ops).1 :=
+  (srun_inv ops (forms, fs) hinv hok).load
+
+example : SInv [] ⟨none, none, none⟩ := ⟨by simp, rfl⟩
+
+/-! ## settings -/
+
+/-- `settings_restart`: config.lisp as written after any sequence of `setq`s of watched variables
+holds every variable once, and evaluating it at the next start — over whatever defaults the new
+process has — gives every saved variable its saved value. -/
+theorem settings_restart (sets : List (String × String)) (defaults : Settings) :
+    (keys (applySets [] sets)).Nodup ∧
+    ∀ k v, lookup (applySets [] sets) k = some v →
+      lookup (loadSettings (applySets [] sets) defaults) k = some v := by
+  have hn := nodup_keys_applySets sets [] (by simp [keys])
+  refine ⟨hn, fun k v h => ?_⟩
+  exact lookup_load _ hn defaults k v (lookup_mem _ k v h)
+
+/-- what is saved for a variable is the value of its last `setq` -/
+theorem settings_last_value (pre post : List (String × String)) (k v : String)
+    (hpost : k ∉ post.map Prod.fst) :
+    lookup (applySets [] (pre ++ (k, v) :: post)) k = some v := by
+  have : applySets [] (pre ++ (k, v) :: post) = applySets (setVar (applySets [] pre) k v) post := by
+    simp [applySets, List.foldl_append]
+  rw [this, lookup_applySets_not_mem post _ k hpost, lookup_setVar]
+  simp
+
+example : lookup (loadSettings (applySets [] [("*b*", "1"), ("*a*", "t"), ("*b*", "2")]) [("*b*", "9")]) "*b*"
+    = some "2" := by decide
+
 end SlipVerif.History
